@@ -130,10 +130,7 @@ impl<F: Field> MultilinearExtension<F> for SparseMultilinearExtension<F> {
             core::mem::swap(&mut a, &mut b);
         }
         // sanity check
-        assert!(
-            a + k < self.num_vars && b + k < self.num_vars,
-            "invalid relabel argument"
-        );
+        assert!(b + k <= self.num_vars, "invalid relabel argument");
         if a == b || k == 0 {
             return self.clone();
         }
